@@ -7,7 +7,7 @@ CONSTANTS
   MaxRestarts = 1
   MaxCycles = 1
   MaxLog = 12
-  KeyByCtx = FALSE
+  KeyByCtx = TRUE
   CompactByRef = TRUE
   Panics = TRUE
   StopLast = TRUE
